@@ -1482,6 +1482,9 @@ func (w *Walker) applyCmp(p *PState, xv ssa.Value, op token.Token, yv ssa.Value,
 			return cmpInt(kx, op, k)
 		}
 		f := p.facts[x]
+		if nonNegativeValue(x) && (!f.hasLo || f.lo < 0) {
+			f.hasLo, f.lo = true, 0 // lengths and unsigned values: x != 0 is x >= 1
+		}
 		if !narrow(&f, op, k) {
 			return false
 		}
@@ -1551,6 +1554,12 @@ func narrow(f *Fact, op token.Token, k int64) bool {
 		setHi(k)
 	case token.NEQ:
 		f.neInts = append(append([]int64(nil), f.neInts...), k)
+		if f.hasLo && f.lo == k && k < 1<<62 {
+			f.lo = k + 1
+		}
+		if f.hasHi && f.hi == k && k > -1<<62 {
+			f.hi = k - 1
+		}
 	case token.LSS:
 		if k == -1<<63 {
 			return false
@@ -1844,4 +1853,17 @@ func fieldOfValue(p *PState, v ssa.Value, fld int, depth int) (ssa.Value, bool) 
 		return fieldOfValue(p, row, fld, depth+1)
 	}
 	return nil, false
+}
+
+// nonNegativeValue: a length, a capacity or a value of an unsigned type.
+func nonNegativeValue(v ssa.Value) bool {
+	if call, ok := v.(*ssa.Call); ok {
+		if bi, isB := call.Call.Value.(*ssa.Builtin); isB && (bi.Name() == "len" || bi.Name() == "cap") {
+			return true
+		}
+	}
+	if bt, ok := v.Type().Underlying().(*types.Basic); ok && bt.Info()&types.IsUnsigned != 0 {
+		return true
+	}
+	return false
 }
